@@ -21,6 +21,7 @@ def handle (op : String) (args : List String) : Option String :=
       let a ← ofHex a; let b ← ofHex b
       pure (match Path.rel a b with | some r => "ok " ++ hexOf r | none => "err")
   | "ospath", [root, p] => do let root ← ofHex root; let p ← ofHex p; pure (outHex (Path.osPath root p))
+  | "importpath", [root, p] => do let root ← ofHex root; let p ← ofHex p; pure (outHex (Path.importPath root p))
   | "ospath.pinned", [root, p] => do let root ← ofHex root; let p ← ofHex p; pure (outHex (Path.osPathPinned root p))
   | "ringfile", master :: sigKey :: time :: ring :: nonces => do
       -- nonces: `<ctx hex>=<nonce hex>` pairs, one per encrypted field
